@@ -124,13 +124,14 @@ def labelOkB (l : String) : Bool := l == "" || l == "repeated " || l == "optiona
 def kwOkB (s : String) : Bool :=
   s != "repeated" && s != "optional" && s != "option" && s != "message" && s != "enum" && s != "oneof"
 
+/-- no comments (the element may have source lines) -/
 def locNoneB (l : Loc) : Bool :=
-  l.startLine == 0 && l.endLine == 0 && l.detached.isEmpty && l.leading == "" && l.trailing == ""
+  l.detached.isEmpty && l.leading == "" && l.trailing == ""
 
-theorem locNoneB_sound {l : Loc} (h : locNoneB l = true) : l.isNone := by
+theorem locNoneB_sound {l : Loc} (h : locNoneB l = true) : l.noComments := by
   unfold locNoneB at h
   simp only [Bool.and_eq_true, beq_iff_eq, List.isEmpty_iff] at h
-  exact ⟨h.1.1.1.1, h.1.1.1.2, h.1.1.2, h.1.2, h.2⟩
+  exact ⟨h.1.1, h.1.2, h.2⟩
 
 def simpleFieldB (f : FieldD) : Bool :=
   (match f.kind with | .field => true | .value => false) && locNoneB f.loc && f.opts.isEmpty && labelOkB f.label &&
@@ -429,7 +430,7 @@ theorem simpleFileB_sound (gen : String) (t : FileD) (h : simpleFileB gen t = tr
 
 def locTags (l : Loc) : List String :=
   (if !l.detached.isEmpty || l.leading != "" || l.trailing != "" then ["comments"] else []) ++
-  (if l.startLine != 0 || l.endLine != 0 then ["located"] else [])
+  []
 
 def fieldTags (f : FieldD) : List String :=
   locTags f.loc ++ (if f.opts.isEmpty then [] else ["options"]) ++
@@ -454,7 +455,7 @@ def whyNot (gen : String) (t : FileD) : List String :=
   if simpleFileB gen t then [] else
   let tags := locTags t.loc ++ (if t.opts.isEmpty then [] else ["options"]) ++ (if t.exts.isEmpty then [] else ["extend"]) ++
     itemsTags t.items
-  let known := ["comments", "extend", "json_name", "located", "options"].filter (tags.contains ·)
+  let known := ["comments", "extend", "json_name", "options"].filter (tags.contains ·)
   if known.isEmpty then ["other"] else known
 
 end J5V.Print.Cover
